@@ -36,6 +36,27 @@ CHECKS = {
        "bytes through all six iterators with every accessor called under catch_unwind, every CID x truncation point, mutated 255-byte streams, and the frame parsers.",
   note=COMMON_NOTE + "The proc-macro itself is not verified: its generated behaviour is modelled generically (Model/MacCmd.v) and tied by the exhaustive differential run; its table input is tied by the translator (trusted python, ~200 lines). Memory safety of safe Rust is the compiler's business.",
   tech="machine-checked proof in Coq (generic over command tables) + translator-regenerated tables/index sets + exhaustive short-string correspondence", ref="6 C03"),
+ "C17": dict(
+  text="Coq theorems (Props/C17.v) about the pure functions the driver models use to compute what they write: SX126x synthesiser word = nearest step for EVERY frequency up to 4.09 GHz "
+       "(|word*32e6/2^25 - f| <= 0.48 Hz, no u32 overflow; linear arithmetic with division, no enumeration) and its four bytes recompose it; SX127x Frf = the step at or below, under 61.04 Hz off, "
+       "fits 24 bits up to 1023.99 MHz; SX126x symbol timeout mant*2^(2exp+1) covers min(n, 248) (at most 7 symbols more) for every n and equals the byte sent (sweep over the 250 classes lifted to all n); "
+       "SX127x writes exactly min(n, 1023); the adapter's 14 + floor(ms*1000/t_sym) symbols cover 12.25 symbols + ms for every t_sym and ms (nia); for EVERY requested power the SetPaConfig/SetTxParams "
+       "values taken from the regenerated PA tables decode, by datasheet / ST anchors written in Spec/PhySpec.v, to the request clamped into the PA's range with a legal SetTxParams byte "
+       "(clamping lemma + sweep), SX1276/SX1272 RegPaConfig/RegPaDac likewise (SX1276 RFO <= 0 dBm: 0.2 dB under, never above); RSSI/SNR of every raw byte within rounding of the datasheet conversion, "
+       "no overflow. Tied to the code by running model and driver on set_channel over every LoRaWAN channel frequency + a stride over 137-1020 MHz, every power -128..127 and i32 extremes x 8 chip/PA "
+       "variants, symbol timeouts 0..65535 (stride in quick), raw status bytes on three chips, and the adapter through LorawanRadio::setup_rx; every written value is also decoded by python datasheet formulas.",
+  note=COMMON_NOTE + "Opcodes, registers, parameter codes, PA tables and constants are regenerated from /repo by tools/rs2v/phytables.py. SX127x packet RSSI follows Semtech's reference (16/15 linearisation in both SNR branches). "
+       "Repaired while building: SX126x SNR i8 overflow for raw 126/127; adapter window a quarter symbol short.",
+  tech="machine-checked proof in Coq (arithmetic for all inputs; finite sweeps lifted by clamping lemmas) + translator-regenerated PHY tables + driver-operation correspondence at pin level + independent datasheet decoder", ref="6 C17"),
+ "C18": dict(
+  text="Coq theorems (Props/C18.v): running the model of get_rx_payload of either driver on ANY emulated chip state (any status byte, reported length, offset, register and buffer contents), with a "
+       "fault at any pin event or none, for ANY caller buffer size, yields an error or a length not exceeding the caller's buffer together with exactly that many bytes (induction over the "
+       "program tree: safe_prog / safe_run); the length is the reported one (explicit header) or the configured one (implicit header); the caller's buffer keeps its size, holds the data at the front "
+       "and is untouched behind it. Tied to the code by running model and driver over reported lengths x offsets x buffer sizes {0,1,12,64,255,256} x explicit/implicit x status codes on SX1262 and "
+       "SX1276 with a patterned chip buffer (wrap-around offsets) and canary-filled caller buffers, a fault at every pin event, and through the LoRaWAN adapter's rx_single; an independent oracle "
+       "recomputes the expected bytes.",
+  note=COMMON_NOTE + "Memory safety of the slice operations is Rust's; the model shows the length check precedes the read and the read length equals the checked length.",
+  tech="machine-checked proof in Coq (safety of the program tree for all chip states and fault positions) + pin-level correspondence + canary oracle", ref="6 C18"),
  "C19": dict(
   text="Coq theorems (Props/C19.v): every byte-wide field of every creator, for EVERY prior byte content and EVERY argument (exhaustive 256x256 sweep per field, lifted by "
        "forallb_forall): the setter refuses exactly the out-of-range values of range-checked fields, else stores the value truncated to the field, and leaves all other bits and "
